@@ -5,9 +5,10 @@
 From Coq Require Export List Arith Bool Lia ZArith.
 Export ListNotations.
 
-Definition jid := nat.
-Definition ctxid := nat.
-Definition wid := nat.
+(* notations, not definitions: [lia]/[rewrite] compare terms syntactically *)
+Notation jid := nat (only parsing).
+Notation ctxid := nat (only parsing).
+Notation wid := nat (only parsing).
 
 (* errors as atoms *)
 Inductive err :=
@@ -427,3 +428,6 @@ Fixpoint replay (c : cfg) (s : core) (n : nat) (tr : list (act * list event)) : 
 Definition all_exited (s : core) : bool := forallb (fun w => match w with WExit => true | _ => false end) (workers s).
 Definition is_final (s : core) : bool :=
   match cp s, lp s with CRet _, LFin => all_exited s | _, _ => false end.
+
+(* scheduler.go:220-225: the limit when Concurrency is 0 *)
+Definition default_concurrency (gomaxprocs : nat) : nat := Nat.max gomaxprocs 4.
